@@ -220,7 +220,7 @@ def companion(rng, s, cid, same_names=True, share_shoot=False):
     shared = None
     if share_shoot and same_names:
         cands = [m for m in s["members"] if m["k"] == "e" and m.get("shoot") and not m["decl"].get("tparams") and not m.get("targs")]
-        if cands and rng.random() < 0.6:
+        if cands and (rng.random() < 0.6 or share_shoot == "always"):
             shared = rng.choice(cands)
     if shared:
         # an own field named like a field of the shared shoot type would declare an accessor twice in the companion itself
